@@ -1129,7 +1129,13 @@ impl<'a, I, A> Strategies<'a, I, A> {
                 for (left_val, right_val) in left.iter().zip(right.iter()) {
                     dist += (left_val - right_val).abs().powf(p);
                 }
-                dist / info.len() as f64
+                // NOTE each infoset contributes at most two (disjoint supports), and a player
+                // without any infosets trivially has identical strategies
+                if info.is_empty() {
+                    0.0
+                } else {
+                    dist / (2.0 * info.len() as f64)
+                }
             })
             .collect();
         dists.try_into().unwrap()
